@@ -1218,3 +1218,24 @@ Example shared_growth :
   end.
 Proof. vm_compute. split; [discriminate|split; reflexivity]. Qed.
 End Examples.
+
+(* ---- Path.Append / Path.Prepend keep hasher and order ---- *)
+Lemma path_build_one_go (pk : pkind) Hd m (pre mid post : list part) :
+  path_prepend (path_append (mk_path Hd m pk mid) post) pre = mk_path Hd m pk (pre ++ mid ++ post).
+Proof. destruct pk; reflexivity. Qed.
+
+(* hence the key (and with it Proof / Entry / JSONLDType) of a path assembled piecewise is
+   that of the path built in one go, and for paths made through the merklizer's Options it
+   never depends on the default hasher *)
+Lemma path_build_key Hd Hd' m pk (pre mid post : list part) :
+  pk <> PKPackage ->
+  path_mt_entry Hd (path_prepend (path_append (mk_path Hd m pk mid) post) pre) =
+  hash_path (mz_hasher m) (pre ++ mid ++ post) /\
+  path_mt_entry Hd' (path_prepend (path_append (mk_path Hd' m pk mid) post) pre) =
+  hash_path (mz_hasher m) (pre ++ mid ++ post).
+Proof. intros Hpk. rewrite !path_build_one_go. destruct pk; try contradiction; split; reflexivity. Qed.
+
+Lemma path_append_hasher p parts : p_hasher (path_append p parts) = p_hasher p.
+Proof. reflexivity. Qed.
+Lemma path_prepend_hasher p parts : p_hasher (path_prepend p parts) = p_hasher p.
+Proof. reflexivity. Qed.
